@@ -79,6 +79,15 @@ func (e *c15Env) Func(ctx sim.HookCtx) {
 		e.onTopRetrieved(ctx.Item.(sim.Msg))
 	case port == e.bot && ctx.Pos == sim.HookPosPortMsgRetrieveIncoming:
 		if rsp, ok := ctx.Item.(mem.AccessRsp); ok {
+			if idx, known := e.botOwner[rsp.GetRspTo()]; !known {
+				e.r.Count("c15.rsp-consumed.unknown-id")
+			} else if e.reqs[idx].discard {
+				e.r.Count("c15.rsp-consumed.late-for-discarded")
+			} else if e.reqs[idx].answers > 0 {
+				e.r.Count("c15.rsp-consumed.after-retirement")
+			} else if e.lastRsp[rsp.GetRspTo()] != nil {
+				e.r.Count("c15.rsp-consumed.overwrites-earlier")
+			}
 			e.lastRsp[rsp.GetRspTo()] = rsp
 		}
 	case port == e.top && ctx.Pos == sim.HookPosPortMsgSend:
@@ -1088,20 +1097,24 @@ var c15Corpus = []struct {
 
 func runC15(r *Run, rng *Rng, replay string) {
 	thorough := r.Tier == "thorough"
+	// common.go's splitmix streams for seeds k and k+d are shifted copies of each
+	// other (state = (seed+n)*golden+c) and re-synchronise after a few conditional
+	// draws; re-seed from a mixed output so that different seeds give unrelated runs.
+	rng = NewRng(rng.U64())
 	for _, c := range c15Corpus {
 		runC15Scenario(r, c.line, c.closed)
 	}
-	n := 1500
+	n := 6000
 	if thorough {
-		n = 30000
+		n = 120000
 	}
 	for i := 0; i < n; i++ {
 		line, closed := genC15Scenario(rng, i%12 == 0)
 		runC15Scenario(r, line, closed)
 	}
-	nl := 1500
+	nl := 6000
 	if thorough {
-		nl = 30000
+		nl = 120000
 	}
 	for i := 0; i < nl; i++ {
 		c15Live(r, rng, i)
